@@ -223,3 +223,31 @@ Proof.
     rewrite G2, Rpow_3, Rpow_2'. assert (0 < 1 + k * (ls / rs) * (k * (ls / rs))) by (assert (0 <= k * (ls / rs) * (k * (ls / rs))) by apply Rle_0_sqr; lra).
     assert (0 < rs * rs + k * ls * (k * ls)) by (assert (0 <= k * ls * (k * ls)) by apply Rle_0_sqr; nra). field. repeat split; lra.
 Qed.
+
+(* ====================================================================== rad_fac is the surface of the sphere *)
+(* the translated rad_fac(d, r) equals 2 pi^(d/2) / Gamma(d/2) r^(d-1)  (pi^(d/2) written sqrt(pi)^d):
+   d = 1, 2, 3 from Gamma(1/2) = sqrt pi, Gamma(1) = 1, Gamma(3/2) = sqrt(pi)/2;  every d >= 4 (the general branch of the
+   code) from the recurrence Gamma(d/2 + 1) = d/2 Gamma(d/2) at that d *)
+Theorem rad_fac_sphere_surface_low ora (d : Z) r : (1 <= d <= 3)%Z -> 0 < r ->
+  ora ORA_GAMMA [1 / 2] = sqrt PI -> ora ORA_GAMMA [2 / 2] = 1 -> ora ORA_GAMMA [3 / 2] = sqrt PI / 2 ->
+  Formulas_gen.rad_fac (Rops ora) (IZR d) r = 2 * Rpow (sqrt PI) (IZR d) / ora ORA_GAMMA [IZR d / 2] * Rpow r (IZR (d - 1)).
+Proof.
+  intros Hd Hr G1 G2 G3. rewrite rad_fac_tie.
+  assert (Hs : 0 < sqrt PI) by (apply sqrt_lt_R0, PI_RGT_0).
+  assert (Hss : sqrt PI * sqrt PI = PI) by (apply sqrt_sqrt; left; apply PI_RGT_0).
+  unfold C04_Model.rad_fac, sq, two, lit, nlit. rsimp.
+  assert (d = 1 \/ d = 2 \/ d = 3)%Z as [ -> | [ -> | -> ] ] by lia; simpl Z.eqb; cbv iota.
+  - rewrite G1. change (1 - 1)%Z with 0%Z. rewrite !Rpow_IZR. simpl. field. lra.
+  - rewrite G2. change (2 - 1)%Z with 1%Z. rewrite !Rpow_IZR. simpl. rewrite !Rmult_1_r, Hss. field.
+  - rewrite G3. change (3 - 1)%Z with 2%Z. rewrite !Rpow_IZR. simpl. rewrite !Rmult_1_r.
+    replace (sqrt PI * (sqrt PI * sqrt PI)) with (PI * sqrt PI) by (rewrite Hss; ring). field. lra.
+Qed.
+Theorem rad_fac_sphere_surface_general ora (d : Z) r : (4 <= d)%Z ->
+  ora ORA_GAMMA [IZR d / 2 + 1] = IZR d / 2 * ora ORA_GAMMA [IZR d / 2] -> ora ORA_GAMMA [IZR d / 2] <> 0 ->
+  Formulas_gen.rad_fac (Rops ora) (IZR d) r = 2 * Rpow (sqrt PI) (IZR d) / ora ORA_GAMMA [IZR d / 2] * Rpow r (IZR (d - 1)).
+Proof.
+  intros Hd Hrec Hnz. rewrite rad_fac_tie.
+  unfold C04_Model.rad_fac, sq, zd, pw, sqrtpi, Gam, two, lit, nlit. rsimp.
+  destruct (Z.eqb_spec d 1); [lia|]. destruct (Z.eqb_spec d 2); [lia|]. destruct (Z.eqb_spec d 3); [lia|].
+  rewrite Hrec. assert (Hd0 : IZR d <> 0) by (apply not_0_IZR; lia). field. split; assumption.
+Qed.
